@@ -29,7 +29,7 @@ KEYS = ["a", "b", "cc"]
 
 
 def g_str(s):
-    return '"%s"%%string' % s
+    return '"%s"' % s
 
 
 def g_z(v):
@@ -136,7 +136,7 @@ def random_history(rng, maxlen):
     return h
 
 
-PREAMBLE = "From Cog Require Import Model.OMap.\nImport ListNotations.\n"
+PREAMBLE = "From Cog Require Import Model.OMap.\nImport ListNotations.\nLocal Open Scope string_scope.\n"
 
 
 def eval_shard(ctx, name, hists, traces):
